@@ -120,7 +120,13 @@ def main():
   samples = []
   for k in range(n_models):
     one_sided = k % 8 == 3
-    if one_sided:
+    tied_unknown = k % 8 == 5
+    if tied_unknown:
+      # a constant tied between a FULLY_CONNECTED of sig0 and an operator the quantizer does
+      # not know (MAXIMUM) of sig1 x a rule for sig0 only: refused (C15), or sig1 is untouched
+      mb, info = gg.tied_unknown_model(rng)
+      dist['tied_constant_unknown_reader'] += 1
+    elif one_sided:
       # constants tied across subgraphs, op chains (runtime tensors that are produced AND
       # read), and a rule that covers ONE subgraph only: refused (C15) or, if accepted,
       # every subgraph must still come out as if it stood alone
@@ -140,7 +146,14 @@ def main():
     m_in = og.read(mb)
     for trial in range(2):
       ship_name, rules = None, None
-      if one_sided:
+      if tied_unknown:
+        cname = rng.choice(['drq8', 'wo8', 'wo4']) if info['tie_weight'] else rng.choice(['a8w8', 'a16w8'])
+        probe = quantizer.Quantizer(bytearray(mb))
+        rules = gr.apply_rules(probe, [('sig0', rng.choice(['*', 'FULLY_CONNECTED']), gr.named_configs()[cname][0], cname)])
+        if not rules:
+          continue
+        desc = rules
+      elif one_sided:
         cname = rng.choice(['wo8', 'wo8s', 'wo4', 'drq8', 'drq8t', 'fp16', 'a8w8'])
         probe = quantizer.Quantizer(bytearray(mb))
         rules = gr.apply_rules(probe, [(f'sig{rng.randrange(info["n_subgraphs"])}', rng.choice(['*', 'FULLY_CONNECTED']),
